@@ -924,3 +924,765 @@ Proof.
       unfold len_res in *. pc. exact H.
   - apply len_go_res in H; auto. lia.
 Qed.
+
+(* ---------- the dichotomy ---------- *)
+(* either the step on a ++ b does what the step on a does and leaves b unread, or
+   the step on a used up a inside a token, stops the loop, and the next step on
+   b is the step on a ++ b *)
+Definition Dich (b : bytes) (r whole : ures) : Prop :=
+  match r with
+  | UCrash _ => True
+  | UR p1 s1 rest d e =>
+      ext b r whole \/
+      (rest = [] /\ e = unilE /\ cstep p1 = false /\
+       forall g, ext [] (uexec (S g) p1 s1 b) whole)
+  end.
+Lemma Dich_ext : forall b r w, ext b r w -> Dich b r w.
+Proof. intros b [] w H; [left; exact H|exact I]. Qed.
+Lemma ext_latch_l : forall b r w, ext b r w -> ext b (xlatch r) w.
+Proof.
+  intros b [p s rest d e|w] [p' s' rest' d' e'|w'] H; cbn [ext xlatch] in *; auto.
+  - destruct H as (-> & -> & H). destruct (unil e') eqn:E; cbn [ext]; auto.
+    split; [reflexivity|]. split; [reflexivity|]. intros ->. discriminate.
+  - destruct (unil e); exact H.
+Qed.
+Lemma Dich_latch : forall b r w, Dich b r w -> Dich b (xlatch r) (xlatch w).
+Proof.
+  intros b [p s rest d e|c] w H; [|exact I]. cbn [Dich] in H.
+  destruct H as [H|(H1 & H2 & H3 & H4)].
+  - apply Dich_ext. apply (ext_latch b (UR p s rest d e) w H).
+  - subst. cbn [xlatch]. rewrite unil_nil. right. repeat split; auto.
+    intros g. apply ext_latch_r. apply H4.
+Qed.
+Lemma Dich_nodone : forall b r w, Dich b r w -> Dich b (value_nodone r) (value_nodone w).
+Proof.
+  intros b [p s rest d e|c] w H; [|exact I]. cbn [Dich] in H. cbn [value_nodone].
+  destruct H as [H|(H1 & H2 & H3 & H4)].
+  - apply Dich_ext. apply (ext_nodone b (UR p s rest d e) w H).
+  - right. repeat split; auto. intros g. apply ext_nodone_r. apply H4.
+Qed.
+
+Ltac zc := unfold tFail, tNext, tFixed, tHighPrec, tString, tArray, tArrayDyn, tArrayCount,
+  tArrayTyped, tObject, tObjectDyn, tObjectCount, tObjectTyped,
+  sStart, sNil, sNoop, sTrue, sFalse, sInt8, sUInt8, sInt16, sInt32, sInt64, sFloat32, sFloat64,
+  sChar, sWithLen, sWithType0, sWithType1, sCont, sFieldName, sFieldNameLen in *.
+Ltac blia := zc; lia.
+(* decide the conditions of the ifs in the goal by lia *)
+Ltac ifs :=
+  repeat match goal with
+  | |- context [if ?c then _ else _] =>
+      lazymatch c with true => fail | false => fail | _ => idtac end;
+      first [ replace c with true by blia | replace c with false by blia ];
+      cbv iota
+  end.
+
+Lemma xb_fail : forall rec p s b, u_t (up_cur p) = tFail ->
+  xbody0 rec p s b = UR p s b false (if up_err p =? 0 then unilE else up_err p).
+Proof. intros rec p s b H. unfold xbody0. rewrite H. reflexivity. Qed.
+Lemma xb_next : forall rec p s b, u_t (up_cur p) = tNext -> xbody0 rec p s b = ustep_value p s b.
+Proof. intros rec p s b H. unfold xbody0. rewrite H. reflexivity. Qed.
+Lemma xb_fixed : forall rec p s b, u_t (up_cur p) = tFixed -> xbody0 rec p s b = ustep_fixed p s b.
+Proof. intros rec p s b H. unfold xbody0. rewrite H. reflexivity. Qed.
+Lemma xb_string : forall rec p s b, u_t (up_cur p) = tHighPrec \/ u_t (up_cur p) = tString ->
+  xbody0 rec p s b = ustep_string p s b.
+Proof. intros rec p s b [H|H]; unfold xbody0; rewrite H; reflexivity. Qed.
+Lemma xb_arr : forall rec p s b, u_t (up_cur p) = tArray -> xbody0 rec p s b = arr_start p s b.
+Proof. intros rec p s b H. unfold xbody0. rewrite H. reflexivity. Qed.
+Lemma xb_arrdyn : forall rec p s b, u_t (up_cur p) = tArrayDyn -> xbody0 rec p s b = arr_dyn p s b.
+Proof. intros rec p s b H. unfold xbody0. rewrite H. reflexivity. Qed.
+Lemma xb_arrcount : forall rec p s b, u_t (up_cur p) = tArrayCount ->
+  xbody0 rec p s b = arr_counted p s b.
+Proof. intros rec p s b H. unfold xbody0. rewrite H. reflexivity. Qed.
+Lemma xb_arrtyped : forall rec p s b, u_t (up_cur p) = tArrayTyped ->
+  xbody0 rec p s b = arr_typed rec p s b.
+Proof. intros rec p s b H. unfold xbody0. rewrite H. reflexivity. Qed.
+Lemma xb_obj : forall rec p s b, u_t (up_cur p) = tObject -> xbody0 rec p s b = obj_start p s b.
+Proof. intros rec p s b H. unfold xbody0. rewrite H. reflexivity. Qed.
+Lemma xb_objdyn : forall rec p s b, u_t (up_cur p) = tObjectDyn ->
+  xbody0 rec p s b =
+    if (u_s (up_cur p) =? sFieldNameLen) && (up_lcur p =? 0) then obj_dyn_emptykey p s b
+    else obj_dyn p s b.
+Proof. intros rec p s b H. unfold xbody0. rewrite H. reflexivity. Qed.
+Lemma xb_objcount : forall rec p s b, u_t (up_cur p) = tObjectCount ->
+  xbody0 rec p s b = obj_counted p s b.
+Proof. intros rec p s b H. unfold xbody0. rewrite H. reflexivity. Qed.
+Lemma xb_objtyped : forall rec p s b, u_t (up_cur p) = tObjectTyped ->
+  xbody0 rec p s b = obj_typed p s b.
+Proof. intros rec p s b H. unfold xbody0. rewrite H. reflexivity. Qed.
+Lemma xb_other : forall rec p s b, u_t (up_cur p) < 0 \/ u_t (up_cur p) > 12 ->
+  xbody0 rec p s b = UR p s b false ueInvalidState.
+Proof. intros rec p s b H. unfold xbody0. cbv zeta. ifs. reflexivity. Qed.
+
+(* the buffer and the marker, read off the invariant *)
+Lemma good_nolen : forall p, good p -> lenst p = false ->
+  up_marker p = 0 /\ bufok p (count_of p).
+Proof. intros p (_ & H2 & H3) E. split; auto. Qed.
+Lemma good_len : forall p, good p -> lenst p = true -> bufok p (markcount (up_marker p)).
+Proof. intros p (_ & H2 & _) E. unfold count_of in H2. rewrite E in H2. exact H2. Qed.
+Lemma good_clean : forall p, good p -> lenst p = false -> count_of p = 0 -> clean p.
+Proof.
+  intros p H E C. destruct (good_nolen p H E) as [H1 H2]. rewrite C in H2.
+  split; [apply bufok_0; exact H2|exact H1].
+Qed.
+
+(* ---------- stFixed ---------- *)
+Definition fixed_fin (p : uparser) (s : sink) (rest : bytes) (done : bool) (err : Z) : ures :=
+  if done && unil err then let '(p1, d) := upop_state p in UR p1 s rest d unilE
+  else UR p s rest done err.
+Definition fixed_via (p : uparser) (s : sink) (b : bytes) (k : Z) (mk : Z -> event) : ures :=
+  match ucollect p b k with
+  | UCC => UCrash 6
+  | UC p1 rest None => fixed_fin p1 s rest false unilE
+  | UC p1 rest (Some tmp) => let '(s1, e) := uvis s (mk (be_dec tmp)) in fixed_fin p1 s1 rest true e
+  end.
+Definition fixed_body (st : Z) (p : uparser) (s : sink) (b : bytes) : ures :=
+  if st =? sNil then let '(s1, e) := uvis s (EVal SNil) in fixed_fin p s1 b true e
+  else if st =? sNoop then fixed_fin p s b false unilE
+  else if st =? sTrue then let '(s1, e) := uvis s (EVal (SBool true)) in fixed_fin p s1 b true e
+  else if st =? sFalse then let '(s1, e) := uvis s (EVal (SBool false)) in fixed_fin p s1 b true e
+  else if st =? sInt8 then
+    match b with [] => UCrash 7 | x :: r => let '(s1, e) := uvis s (EVal (SNum KInt8 (wraps 8 x))) in fixed_fin p s1 r true e end
+  else if st =? sUInt8 then
+    match b with [] => UCrash 8 | x :: r => let '(s1, e) := uvis s (EVal (SNum KUint8 x)) in fixed_fin p s1 r true e end
+  else if st =? sChar then fixed_via p s b 1 (fun v => EVal (SNum KByte v))
+  else if st =? sInt16 then fixed_via p s b 2 (fun v => EVal (SNum KInt16 (wraps 16 v)))
+  else if st =? sInt32 then fixed_via p s b 4 (fun v => EVal (SNum KInt32 (wraps 32 v)))
+  else if st =? sInt64 then fixed_via p s b 8 (fun v => EVal (SNum KInt64 (wraps 64 v)))
+  else if st =? sFloat32 then fixed_via p s b 4 (fun v => EVal (SNum KFloat32 v))
+  else if st =? sFloat64 then fixed_via p s b 8 (fun v => EVal (SNum KFloat64 v))
+  else UR p s b false unilE.
+Lemma ustep_fixed_eq : forall p s b, ustep_fixed p s b = fixed_body (u_s (up_cur p)) p s b.
+Proof. reflexivity. Qed.
+
+Lemma fixed_fin_ext : forall b p s rest d e,
+  ext b (fixed_fin p s rest d e) (fixed_fin p s (rest ++ b) d e).
+Proof. intros. unfold fixed_fin. repeat bm; ext_solve. Qed.
+
+Lemma fixed_fin_post : forall p s rest d e p1 s1 rest' d',
+  up_err p = 0 -> base p -> mid (up_cur p) -> clean p ->
+  fixed_fin p s rest d e = UR p1 s1 rest' d' unilE -> Post p1 d'.
+Proof.
+  intros p s rest d e p1 s1 rest' d' He Hb Hm Hc H. unfold fixed_fin in H.
+  destruct (d && unil e) eqn:E.
+  - destruct (upop_state p) as [q dq] eqn:Ep. invSR H. eapply upop_state_post; eauto.
+  - invSR H. rewrite unil_nil, andb_true_r in E. subst d'.
+    split; [apply Inv_clean; assumption|discriminate].
+Qed.
+
+Lemma cstep_fixed : forall p, u_t (up_cur p) = tFixed -> cstep p = is_zero_sized (up_cur p).
+Proof. intros p H. unfold cstep, can_step_without_input. rewrite H. reflexivity. Qed.
+
+Lemma fixed_via_dich : forall b p s a k mk,
+  u_t (up_cur p) = tFixed -> is_zero_sized (up_cur p) = false ->
+  (forall q s' x, up_cur q = up_cur p -> ustep_fixed q s' x = fixed_via q s' x k mk) ->
+  bufok p k ->
+  Dich b (fixed_via p s a k mk) (fixed_via p s (a ++ b) k mk).
+Proof.
+  intros b p s a k mk Ht Hz Hq Hb. unfold fixed_via at 1.
+  destruct (ucollect p a k) as [p1 rest [t|]|] eqn:E; [..|exact I].
+  - apply Dich_ext. destruct (collect_some_app p a b _ _ _ _ Hb E) as [E2 _].
+    unfold fixed_via. rewrite E2. destruct (uvis s _) as [s1 e]. apply fixed_fin_ext.
+  - destruct (collect_none_app p a b _ _ _ Hb E) as (-> & -> & Hb1 & _ & E2).
+    unfold fixed_fin. cbn [andb]. right. split; [reflexivity|]. split; [reflexivity|]. split.
+    + rewrite cstep_fixed by exact Ht. exact Hz.
+    + intros g. rewrite uexec_S, xb_fixed by exact Ht. apply ext_latch_l.
+      rewrite Hq by reflexivity. unfold fixed_via. rewrite E2. apply ext_refl.
+Qed.
+
+Lemma zero_sized_steps : forall c, is_zero_sized c = true ->
+  u_s c = sNil \/ u_s c = sTrue \/ u_s c = sFalse.
+Proof. intros c H. unfold is_zero_sized in H. blia. Qed.
+
+Lemma ustep_fixed_dich : forall b p s a,
+  u_t (up_cur p) = tFixed -> a <> [] \/ cstep p = true -> bufok p (fixed_count (u_s (up_cur p))) ->
+  Dich b (ustep_fixed p s a) (ustep_fixed p s (a ++ b)).
+Proof.
+  intros b p s a Ht Ha Hb. rewrite !ustep_fixed_eq.
+  rewrite cstep_fixed in Ha by exact Ht.
+  assert (Hvia : forall k mk,
+            fixed_count (u_s (up_cur p)) = k -> is_zero_sized (up_cur p) = false ->
+            (forall q s' x, fixed_body (u_s (up_cur p)) q s' x = fixed_via q s' x k mk) ->
+            Dich b (fixed_via p s a k mk) (fixed_via p s (a ++ b) k mk)).
+  { intros k mk Hk Hz Hq. apply fixed_via_dich; auto.
+    - intros q s' x Eq. rewrite ustep_fixed_eq, Eq. apply Hq.
+    - rewrite <- Hk. exact Hb. }
+  unfold fixed_body at 1 2.
+  destruct (u_s (up_cur p) =? sNil) eqn:E1.
+  { destruct (uvis s _) as [s1 e]. apply Dich_ext, fixed_fin_ext. }
+  destruct (u_s (up_cur p) =? sNoop) eqn:E2.
+  { apply Dich_ext, fixed_fin_ext. }
+  destruct (u_s (up_cur p) =? sTrue) eqn:E3.
+  { destruct (uvis s _) as [s1 e]. apply Dich_ext, fixed_fin_ext. }
+  destruct (u_s (up_cur p) =? sFalse) eqn:E4.
+  { destruct (uvis s _) as [s1 e]. apply Dich_ext, fixed_fin_ext. }
+  assert (Hz : is_zero_sized (up_cur p) = false) by (unfold is_zero_sized; blia).
+  assert (Ha' : a <> []) by (destruct Ha as [Ha|Ha]; [exact Ha|congruence]).
+  destruct (u_s (up_cur p) =? sInt8) eqn:E5.
+  { destruct a as [|x r]; [congruence|]. cbn [app].
+    destruct (uvis s _) as [s1 e]. apply Dich_ext, fixed_fin_ext. }
+  destruct (u_s (up_cur p) =? sUInt8) eqn:E6.
+  { destruct a as [|x r]; [congruence|]. cbn [app].
+    destruct (uvis s _) as [s1 e]. apply Dich_ext, fixed_fin_ext. }
+  destruct (u_s (up_cur p) =? sChar) eqn:E7.
+  { apply Hvia; auto; [unfold fixed_count; ifs; reflexivity|].
+    intros. unfold fixed_body. rewrite E1, E2, E3, E4, E5, E6, E7. reflexivity. }
+  destruct (u_s (up_cur p) =? sInt16) eqn:E8.
+  { apply Hvia; auto; [unfold fixed_count; ifs; reflexivity|].
+    intros. unfold fixed_body. rewrite E1, E2, E3, E4, E5, E6, E7, E8. reflexivity. }
+  destruct (u_s (up_cur p) =? sInt32) eqn:E9.
+  { apply Hvia; auto; [unfold fixed_count; ifs; reflexivity|].
+    intros. unfold fixed_body. rewrite E1, E2, E3, E4, E5, E6, E7, E8, E9. reflexivity. }
+  destruct (u_s (up_cur p) =? sInt64) eqn:E10.
+  { apply Hvia; auto; [unfold fixed_count; ifs; reflexivity|].
+    intros. unfold fixed_body. rewrite E1, E2, E3, E4, E5, E6, E7, E8, E9, E10. reflexivity. }
+  destruct (u_s (up_cur p) =? sFloat32) eqn:E11.
+  { apply Hvia; auto; [unfold fixed_count; ifs; reflexivity|].
+    intros. unfold fixed_body. rewrite E1, E2, E3, E4, E5, E6, E7, E8, E9, E10, E11. reflexivity. }
+  destruct (u_s (up_cur p) =? sFloat64) eqn:E12.
+  { apply Hvia; auto; [unfold fixed_count; ifs; reflexivity|].
+    intros. unfold fixed_body. rewrite E1, E2, E3, E4, E5, E6, E7, E8, E9, E10, E11, E12. reflexivity. }
+  apply Dich_ext. ext_solve.
+Qed.
+
+Lemma lenst_fixed : forall p, u_t (up_cur p) = tFixed -> lenst p = false.
+Proof. intros p H. unfold lenst. blia. Qed.
+Lemma count_of_fixed : forall p, u_t (up_cur p) = tFixed -> count_of p = fixed_count (u_s (up_cur p)).
+Proof. intros p H. unfold count_of. rewrite (lenst_fixed p H), H. reflexivity. Qed.
+
+Lemma fixed_via_post : forall p s a k mk p1 s1 rest d,
+  up_err p = 0 -> base p -> u_t (up_cur p) = tFixed -> up_marker p = 0 ->
+  fixed_count (u_s (up_cur p)) = k -> bufok p k ->
+  fixed_via p s a k mk = UR p1 s1 rest d unilE -> Post p1 d.
+Proof.
+  intros p s a k mk p1 s1 rest d He Hb Ht Hm Hk Hbuf H. unfold fixed_via in H.
+  assert (Hmid : mid (up_cur p)) by (unfold mid; rewrite Ht; split; discriminate).
+  destruct (ucollect p a k) as [q rest1 [t|]|] eqn:E; [..|discriminate].
+  - destruct (collect_some_app p a [] _ _ _ _ Hbuf E) as [_ ->].
+    destruct (uvis s _) as [s2 e].
+    eapply fixed_fin_post; [| | | |exact H]; pc; auto. split; pc; auto.
+  - destruct (collect_none_app p a [] _ _ _ Hbuf E) as (-> & -> & Hb1 & _ & _).
+    unfold fixed_fin in H. cbn [andb] in H. invSR H. split; [|discriminate].
+    split; [exact He|right]. split; [exact Hb|]. split.
+    + change (count_of (uset_buf p (up_buf p ++ a))) with (count_of p).
+      rewrite count_of_fixed by exact Ht. exact Hb1.
+    + intros _. exact Hm.
+Qed.
+
+Lemma ustep_fixed_post : forall p s a p1 s1 rest d,
+  up_err p = 0 -> good p -> u_t (up_cur p) = tFixed ->
+  ustep_fixed p s a = UR p1 s1 rest d unilE -> Post p1 d.
+Proof.
+  intros p s a p1 s1 rest d He Hg Ht H. rewrite ustep_fixed_eq in H.
+  destruct (good_nolen p Hg (lenst_fixed p Ht)) as [Hm Hbuf].
+  rewrite count_of_fixed in Hbuf by exact Ht.
+  assert (Hb : base p) by apply Hg.
+  assert (Hmid : mid (up_cur p)) by (unfold mid; rewrite Ht; split; discriminate).
+  assert (HI : Inv p) by (split; [exact He|right; exact Hg]).
+  assert (Hfin : forall s' r' d0 e0, fixed_count (u_s (up_cur p)) = 0 ->
+            fixed_fin p s' r' d0 e0 = UR p1 s1 rest d unilE -> Post p1 d).
+  { intros s' r' d0 e0 Hk Hf. rewrite Hk in Hbuf. apply bufok_0 in Hbuf.
+    eapply fixed_fin_post; [| | | |exact Hf]; auto. split; auto. }
+  unfold fixed_body in H.
+  destruct (u_s (up_cur p) =? sNil) eqn:E1.
+  { destruct (uvis s _) as [s2 e]. eapply Hfin; [|exact H]. unfold fixed_count; ifs; reflexivity. }
+  destruct (u_s (up_cur p) =? sNoop) eqn:E2.
+  { eapply Hfin; [|exact H]. unfold fixed_count; ifs; reflexivity. }
+  destruct (u_s (up_cur p) =? sTrue) eqn:E3.
+  { destruct (uvis s _) as [s2 e]. eapply Hfin; [|exact H]. unfold fixed_count; ifs; reflexivity. }
+  destruct (u_s (up_cur p) =? sFalse) eqn:E4.
+  { destruct (uvis s _) as [s2 e]. eapply Hfin; [|exact H]. unfold fixed_count; ifs; reflexivity. }
+  destruct (u_s (up_cur p) =? sInt8) eqn:E5.
+  { destruct a as [|x r]; [discriminate|].
+    destruct (uvis s _) as [s2 e]. eapply Hfin; [|exact H]. unfold fixed_count; ifs; reflexivity. }
+  destruct (u_s (up_cur p) =? sUInt8) eqn:E6.
+  { destruct a as [|x r]; [discriminate|].
+    destruct (uvis s _) as [s2 e]. eapply Hfin; [|exact H]. unfold fixed_count; ifs; reflexivity. }
+  destruct (u_s (up_cur p) =? sChar) eqn:E7.
+  { assert (Hk : fixed_count (u_s (up_cur p)) = 1) by (unfold fixed_count; ifs; reflexivity).
+    rewrite Hk in Hbuf.
+    exact (fixed_via_post p s a 1 _ p1 s1 rest d He Hb Ht Hm Hk Hbuf H). }
+  destruct (u_s (up_cur p) =? sInt16) eqn:E8.
+  { assert (Hk : fixed_count (u_s (up_cur p)) = 2) by (unfold fixed_count; ifs; reflexivity).
+    rewrite Hk in Hbuf.
+    exact (fixed_via_post p s a 2 _ p1 s1 rest d He Hb Ht Hm Hk Hbuf H). }
+  destruct (u_s (up_cur p) =? sInt32) eqn:E9.
+  { assert (Hk : fixed_count (u_s (up_cur p)) = 4) by (unfold fixed_count; ifs; reflexivity).
+    rewrite Hk in Hbuf.
+    exact (fixed_via_post p s a 4 _ p1 s1 rest d He Hb Ht Hm Hk Hbuf H). }
+  destruct (u_s (up_cur p) =? sInt64) eqn:E10.
+  { assert (Hk : fixed_count (u_s (up_cur p)) = 8) by (unfold fixed_count; ifs; reflexivity).
+    rewrite Hk in Hbuf.
+    exact (fixed_via_post p s a 8 _ p1 s1 rest d He Hb Ht Hm Hk Hbuf H). }
+  destruct (u_s (up_cur p) =? sFloat32) eqn:E11.
+  { assert (Hk : fixed_count (u_s (up_cur p)) = 4) by (unfold fixed_count; ifs; reflexivity).
+    rewrite Hk in Hbuf.
+    exact (fixed_via_post p s a 4 _ p1 s1 rest d He Hb Ht Hm Hk Hbuf H). }
+  destruct (u_s (up_cur p) =? sFloat64) eqn:E12.
+  { assert (Hk : fixed_count (u_s (up_cur p)) = 8) by (unfold fixed_count; ifs; reflexivity).
+    rewrite Hk in Hbuf.
+    exact (fixed_via_post p s a 8 _ p1 s1 rest d He Hb Ht Hm Hk Hbuf H). }
+  invSR H. split; [exact HI|discriminate].
+Qed.
+
+(* ---------- strings and high precision numbers ---------- *)
+Definition str_fin (p : uparser) (s : sink) (rest : bytes) (done : bool) (err : Z) : ures :=
+  if done && unil err then let '(p1, d) := upop_len_state p in UR p1 s rest d unilE
+  else UR p s rest done err.
+Definition str_withlen (p : uparser) (s : sink) (b : bytes) : ures :=
+  let L := up_lcur p in
+  if L =? 0 then let '(s1, e) := uvis s (EVal (SStr [])) in str_fin p s1 b true e
+  else
+    match ucollect p b L with
+    | UCC => UCrash 9
+    | UC p1 rest None => str_fin p1 s rest false unilE
+    | UC p1 rest (Some tmp) => let '(s1, e) := uvis s (EStrRef tmp) in str_fin p1 s1 rest true e
+    end.
+Definition str_cont (s : sink) (r : ulres) : ures :=
+  match r with
+  | ULC w => UCrash w
+  | UL p1 rest err =>
+      if unil err && (u_s (up_cur p1) =? sWithLen) then str_withlen p1 s rest
+      else UR p1 s rest false err
+  end.
+Lemma ustep_string_eq : forall p s b,
+  ustep_string p s b =
+    if u_s (up_cur p) =? sStart then str_cont s (ustep_len p b (with_step (up_cur p) sWithLen))
+    else if u_s (up_cur p) =? sWithLen then str_withlen p s b
+    else UR p s b false unilE.
+Proof. reflexivity. Qed.
+
+Definition isstr (p : uparser) : Prop := u_t (up_cur p) = tHighPrec \/ u_t (up_cur p) = tString.
+
+Lemma isstr_mid : forall p, isstr p -> mid (up_cur p).
+Proof. intros p [H|H]; unfold mid; rewrite H; split; discriminate. Qed.
+Lemma cstep_str : forall p, isstr p -> cstep p = false.
+Proof. intros p [H|H]; unfold cstep, can_step_without_input; rewrite H; reflexivity. Qed.
+
+Lemma str_fin_ext : forall b p s rest d e,
+  ext b (str_fin p s rest d e) (str_fin p s (rest ++ b) d e).
+Proof. intros. unfold str_fin. repeat bm; ext_solve. Qed.
+
+Lemma str_fin_post : forall p s rest d e p1 s1 rest' d',
+  up_err p = 0 -> base p -> mid (up_cur p) -> clean p ->
+  str_fin p s rest d e = UR p1 s1 rest' d' unilE -> Post p1 d'.
+Proof.
+  intros p s rest d e p1 s1 rest' d' He Hb Hm Hc H. unfold str_fin in H.
+  destruct (d && unil e) eqn:E.
+  - destruct (upop_len_state p) as [q dq] eqn:Ep. invSR H. eapply upop_len_state_post; eauto.
+  - invSR H. rewrite unil_nil, andb_true_r in E. subst d'.
+    split; [apply Inv_clean; assumption|discriminate].
+Qed.
+
+Lemma str_withlen_dich : forall b p s a,
+  isstr p -> u_s (up_cur p) = sWithLen -> bufok p (up_lcur p) ->
+  Dich b (str_withlen p s a) (str_withlen p s (a ++ b)).
+Proof.
+  intros b p s a Ht Hs Hb. unfold str_withlen at 1.
+  destruct (up_lcur p =? 0) eqn:EL.
+  { apply Dich_ext. unfold str_withlen. rewrite EL. destruct (uvis s _) as [s1 e]. apply str_fin_ext. }
+  destruct (ucollect p a (up_lcur p)) as [p1 rest [t|]|] eqn:E; [..|exact I].
+  - apply Dich_ext. destruct (collect_some_app p a b _ _ _ _ Hb E) as [E2 _].
+    unfold str_withlen. rewrite EL, E2. destruct (uvis s _) as [s1 e]. apply str_fin_ext.
+  - destruct (collect_none_app p a b _ _ _ Hb E) as (-> & -> & Hb1 & _ & E2).
+    unfold str_fin. cbn [andb]. right. split; [reflexivity|]. split; [reflexivity|]. split.
+    + apply cstep_str. exact Ht.
+    + intros g. rewrite uexec_S, xb_string by exact Ht. apply ext_latch_l.
+      rewrite ustep_string_eq. pc. rewrite Hs.
+      replace (sWithLen =? sStart) with false by reflexivity. rewrite Z.eqb_refl.
+      unfold str_withlen. pc. rewrite EL, E2. apply ext_refl.
+Qed.
+
+Lemma str_cont_ext_nil : forall s x w, extL [] x w -> ext [] (str_cont s x) (str_cont s w).
+Proof.
+  intros s [p1 rest e|c] [p2 rest' e'|c'] H; cbn [extL str_cont] in *; try tauto; try exact I.
+  destruct H as [<- H]. destruct (unil e) eqn:E.
+  - apply unil_true in E. destruct (H E) as [<- ->]. rewrite app_nil_r. apply ext_refl.
+  - cbn [andb]. apply ext_err. apply unil_false. exact E.
+Qed.
+
+Lemma lenst_str_start : forall p, isstr p -> u_s (up_cur p) = sStart -> lenst p = true.
+Proof. intros p [H|H] Hs; unfold lenst; blia. Qed.
+Lemma lenst_str_other : forall p, isstr p -> u_s (up_cur p) <> sStart -> lenst p = false.
+Proof. intros p [H|H] Hs; unfold lenst; blia. Qed.
+Lemma count_of_str_withlen : forall p, isstr p -> u_s (up_cur p) = sWithLen -> count_of p = up_lcur p.
+Proof.
+  intros p Ht Hs. unfold count_of. rewrite (lenst_str_other p Ht) by (rewrite Hs; discriminate).
+  destruct Ht as [H|H]; rewrite H, Hs; reflexivity.
+Qed.
+
+Lemma ustep_string_dich : forall b p s a,
+  isstr p -> good p -> a <> [] -> b <> [] ->
+  Dich b (ustep_string p s a) (ustep_string p s (a ++ b)).
+Proof.
+  intros b p s a Ht Hg Ha Hb0. rewrite !ustep_string_eq.
+  destruct (u_s (up_cur p) =? sStart) eqn:E1.
+  - apply Z.eqb_eq in E1.
+    pose proof (good_len p Hg (lenst_str_start p Ht E1)) as Hbuf.
+    set (cont := with_step (up_cur p) sWithLen).
+    pose proof (ustep_len_dich cont p a b Hbuf Ha Hb0) as D.
+    destruct (ustep_len p a cont) as [p1 rest e|c] eqn:EL; [|exact I].
+    cbn [LDich] in D. destruct D as [D|(D1 & D2 & D3 & D4 & D5 & D6)].
+    + destruct (ustep_len p (a ++ b) cont) as [p2 rest' e'|c'] eqn:EW; cbn [extL] in D; [|contradiction].
+      destruct D as [<- D]. cbn [str_cont].
+      destruct (unil e) eqn:Ee.
+      * apply unil_true in Ee. destruct (D Ee) as [<- ->]. subst e.
+        destruct (u_s (up_cur p1) =? sWithLen) eqn:Es; cbn [andb]; [|apply Dich_ext; ext_solve].
+        apply Z.eqb_eq in Es.
+        destruct (ustep_len_res cont p a p1 rest Hbuf EL) as (_ & _ & _ & _ & [(A & _)|(A & B)]).
+        { rewrite A, E1 in Es. discriminate. }
+        apply str_withlen_dich; [|exact Es|left; apply B].
+        unfold isstr in *. rewrite A. exact Ht.
+      * cbn [andb]. apply Dich_ext, ext_err. apply unil_false; exact Ee.
+    + subst rest e. cbn [str_cont]. rewrite D4, E1.
+      replace (sStart =? sWithLen) with false by reflexivity. rewrite andb_false_r.
+      right. split; [reflexivity|]. split; [reflexivity|]. split.
+      * apply cstep_str. unfold isstr in *. rewrite D4. exact Ht.
+      * intros g. rewrite uexec_S, xb_string by (unfold isstr in *; rewrite D4; exact Ht).
+        apply ext_latch_l. rewrite ustep_string_eq. rewrite D4, E1. rewrite Z.eqb_refl.
+        apply str_cont_ext_nil. exact D6.
+  - destruct (u_s (up_cur p) =? sWithLen) eqn:E2.
+    + apply Z.eqb_eq in E2. apply str_withlen_dich; auto.
+      destruct (good_nolen p Hg) as [_ Hbuf]; [apply lenst_str_other; [exact Ht|lia]|].
+      rewrite count_of_str_withlen in Hbuf by assumption. exact Hbuf.
+    + apply Dich_ext. ext_solve.
+Qed.
+
+Lemma base_len_res : forall cont p p1, base p -> len_res cont p p1 ->
+  u_t cont = u_t (up_cur p) -> base p1.
+Proof.
+  intros cont p p1 (H1 & H2 & H3) (A & B & C & _ & [(D & _)|(D & _)]) Ht;
+    unfold base; rewrite A, B, C, D; repeat split; auto.
+  eapply stk_same_t; [|exact H1]. exact Ht.
+Qed.
+
+Lemma str_withlen_post : forall p s a p1 s1 rest d,
+  up_err p = 0 -> base p -> isstr p -> u_s (up_cur p) = sWithLen -> up_marker p = 0 ->
+  bufok p (up_lcur p) ->
+  str_withlen p s a = UR p1 s1 rest d unilE -> Post p1 d.
+Proof.
+  intros p s a p1 s1 rest d He Hb Ht Hs Hm Hbuf H. unfold str_withlen in H.
+  pose proof (isstr_mid p Ht) as Hmid.
+  destruct (up_lcur p =? 0) eqn:EL.
+  { destruct (uvis s _) as [s2 e]. apply Z.eqb_eq in EL. rewrite EL in Hbuf. apply bufok_0 in Hbuf.
+    eapply str_fin_post; [| | | |exact H]; auto. split; auto. }
+  destruct (ucollect p a (up_lcur p)) as [q rest1 [t|]|] eqn:E; [..|discriminate].
+  - destruct (collect_some_app p a [] _ _ _ _ Hbuf E) as [_ ->].
+    destruct (uvis s _) as [s2 e].
+    eapply str_fin_post; [| | | |exact H]; pc; auto. split; pc; auto.
+  - destruct (collect_none_app p a [] _ _ _ Hbuf E) as (-> & -> & Hb1 & _ & _).
+    unfold str_fin in H. cbn [andb] in H. invSR H. split; [|discriminate].
+    split; [exact He|right]. split; [exact Hb|]. split.
+    + change (count_of (uset_buf p (up_buf p ++ a))) with (count_of p).
+      rewrite count_of_str_withlen by assumption. exact Hb1.
+    + intros _. exact Hm.
+Qed.
+
+(* the invariant of a state that is still reading a length *)
+Lemma Inv_len_partial : forall p p1,
+  up_err p = 0 -> base p -> lenst p = true ->
+  up_stack p1 = up_stack p -> up_vcur p1 = up_vcur p -> up_vstack p1 = up_vstack p ->
+  up_err p1 = up_err p -> up_cur p1 = up_cur p -> up_lcur p1 = up_lcur p ->
+  bufok p1 (markcount (up_marker p1)) -> Inv p1.
+Proof.
+  intros p p1 He (H1 & H2 & H3) Hl A B C D E F Hb.
+  assert (Hl1 : lenst p1 = true) by (unfold lenst in *; rewrite E, F; exact Hl).
+  split; [congruence|right]. split; [|split].
+  - unfold base. rewrite A, B, C, E. auto.
+  - unfold count_of. rewrite Hl1. exact Hb.
+  - rewrite Hl1. discriminate.
+Qed.
+
+Lemma ustep_string_post : forall p s a p1 s1 rest d,
+  up_err p = 0 -> good p -> isstr p ->
+  ustep_string p s a = UR p1 s1 rest d unilE -> Post p1 d.
+Proof.
+  intros p s a p1 s1 rest d He Hg Ht H. rewrite ustep_string_eq in H.
+  assert (Hb : base p) by apply Hg.
+  assert (HI : Inv p) by (split; [exact He|right; exact Hg]).
+  destruct (u_s (up_cur p) =? sStart) eqn:E1.
+  - apply Z.eqb_eq in E1.
+    pose proof (lenst_str_start p Ht E1) as Hl.
+    pose proof (good_len p Hg Hl) as Hbuf.
+    set (cont := with_step (up_cur p) sWithLen) in *.
+    destruct (ustep_len p a cont) as [q rest1 e|c] eqn:EL; [|discriminate]. cbn [str_cont] in H.
+    destruct (unil e) eqn:Ee.
+    + apply unil_true in Ee. subst e.
+      pose proof (ustep_len_res cont p a q rest1 Hbuf EL) as LR.
+      pose proof (base_len_res cont p q Hb LR eq_refl) as Hbq.
+      destruct LR as (A & B & C & D & [(F & G & _ & K)|(F & G)]).
+      * rewrite F, E1 in H. replace (sStart =? sWithLen) with false in H by reflexivity.
+        cbn [andb] in H. invSR H. split; [|discriminate].
+        eapply Inv_len_partial; eauto.
+      * rewrite F in H. cbn [cont with_step u_s mku] in H. rewrite Z.eqb_refl in H. cbn [andb] in H.
+        eapply str_withlen_post; [| | | | | |exact H].
+        -- congruence.
+        -- exact Hbq.
+        -- unfold isstr in *. rewrite F. exact Ht.
+        -- rewrite F. reflexivity.
+        -- apply G.
+        -- left. apply G.
+    + cbn [andb] in H. invSR H. discriminate.
+  - destruct (u_s (up_cur p) =? sWithLen) eqn:E2.
+    + apply Z.eqb_eq in E2.
+      destruct (good_nolen p Hg) as [Hm Hbuf]; [apply lenst_str_other; [exact Ht|lia]|].
+      rewrite count_of_str_withlen in Hbuf by assumption.
+      eapply str_withlen_post; [| | | | | |exact H]; auto.
+    + invSR H. split; [exact HI|discriminate].
+Qed.
+
+(* ---------- simple container states ---------- *)
+Ltac solve_clean Hg :=
+  apply good_clean; [exact Hg | unfold lenst; blia
+                    | unfold count_of, lenst, fixed_count; ifs; reflexivity].
+
+Lemma lenst_cstep : forall p, lenst p = true -> cstep p = false.
+Proof.
+  intros p H. unfold cstep, can_step_without_input, is_zero_sized, lenst in *.
+  destruct (Z.eqb_spec (u_t (up_cur p)) tFixed) as [E|E]; [exfalso; blia|].
+  destruct (Z.eqb_spec (u_t (up_cur p)) tArrayCount) as [E1|E1]; [blia|].
+  destruct (Z.eqb_spec (u_t (up_cur p)) tArrayTyped) as [E2|E2].
+  { apply andb_false_iff. left. blia. }
+  destruct (Z.eqb_spec (u_t (up_cur p)) tObjectDyn) as [E3|E3]; [blia|].
+  destruct (Z.eqb_spec (u_t (up_cur p)) tObjectCount) as [E4|E4]; [blia|].
+  destruct (Z.eqb_spec (u_t (up_cur p)) tObjectTyped) as [E5|E5]; [blia|].
+  reflexivity.
+Qed.
+
+(* lifting the dichotomy of stepLen to a state whose step is stepLen *)
+Lemma of_ul_dich : forall cont p s b r w,
+  lenst p = true -> LDich cont p b r w ->
+  (forall q g s', up_cur q = up_cur p -> up_lcur q = up_lcur p -> up_marker q <> 0 ->
+     xbody0 (uexec g) q s' b = of_ul (ustep_len q b cont) s') ->
+  Dich b (of_ul r s) (of_ul w s).
+Proof.
+  intros cont p s b [p1 rest e|c] w Hl D Hx; [|exact I]. cbn [LDich] in D. cbn [of_ul Dich].
+  destruct D as [D|(D1 & D2 & D3 & D4 & D5 & D6)].
+  - left. apply (ext_of_ul b (UL p1 rest e) w s D).
+  - right. repeat split; auto.
+    + apply lenst_cstep. unfold lenst in *. rewrite D4, D5. exact Hl.
+    + intros g. rewrite uexec_S, Hx by assumption. apply ext_latch_l.
+      apply ext_of_ul. exact D6.
+Qed.
+
+Lemma of_ul_post : forall cont p s a p1 s1 rest d,
+  up_err p = 0 -> good p -> lenst p = true -> u_t cont = u_t (up_cur p) ->
+  of_ul (ustep_len p a cont) s = UR p1 s1 rest d unilE -> Post p1 d.
+Proof.
+  intros cont p s a p1 s1 rest d He Hg Hl Ht H.
+  assert (Hb : base p) by apply Hg.
+  pose proof (good_len p Hg Hl) as Hbuf.
+  destruct (ustep_len p a cont) as [q rest1 e|c] eqn:EL; [|discriminate].
+  cbn [of_ul] in H. invSR H. split; [|discriminate].
+  pose proof (ustep_len_res cont p a p1 rest Hbuf EL) as LR.
+  pose proof (base_len_res cont p p1 Hb LR Ht) as Hbq.
+  destruct LR as (A & B & C & D & [(F & G & _ & K)|(F & G)]).
+  - eapply Inv_len_partial; eauto.
+  - apply Inv_clean; [congruence|exact Hbq|exact G].
+Qed.
+
+Lemma cstep_false_t : forall p, u_t (up_cur p) = tNext \/ u_t (up_cur p) = tArray \/
+  u_t (up_cur p) = tArrayDyn \/ u_t (up_cur p) = tObject -> cstep p = false.
+Proof.
+  intros p H. unfold cstep, can_step_without_input.
+  destruct H as [H|[H|[H|H]]]; rewrite H; reflexivity.
+Qed.
+
+(* stNext *)
+Lemma next_post : forall p s a p1 s1 rest d,
+  up_err p = 0 -> good p -> u_t (up_cur p) = tNext ->
+  ustep_value p s a = UR p1 s1 rest d unilE -> Post p1 d.
+Proof.
+  intros p s a p1 s1 rest d He Hg Ht H.
+  assert (Hc : clean p) by solve_clean Hg.
+  destruct (ustep_value_post p s a p1 s1 rest d He (proj1 Hg) Hc H) as [HI Hd].
+  split; [exact HI|]. intros D. rewrite (Hd D). exact Ht.
+Qed.
+
+(* stArray / stObject: the byte after the opening marker *)
+Lemma base_set_type : forall p t, base p -> mid (up_cur p) -> t <> tNext -> t <> tFail ->
+  base (uset_type p t).
+Proof.
+  intros p t (H1 & H2 & H3) Hm Ht1 Ht2. unfold base. pc. repeat split; auto.
+  eapply stk_mid_change; [exact Hm| |exact H1]. split; assumption.
+Qed.
+Lemma base_set_step : forall p st, base p -> base (uset_step p st).
+Proof.
+  intros p st (H1 & H2 & H3). unfold base. pc. repeat split; auto;
+  try (eapply stk_same_t; [|exact H1]; reflexivity).
+Qed.
+Lemma base_set_lcur : forall p l, base p -> base (uset_lcur p l).
+Proof. intros p l H. exact H. Qed.
+
+Lemma arr_start_ext : forall b p s a, a <> [] -> ext b (arr_start p s a) (arr_start p s (a ++ b)).
+Proof.
+  intros b p s [|x r] Ha; [congruence|]. cbn [app]. unfold arr_start.
+  repeat (first [ ext_solve | bm ]).
+Qed.
+Lemma obj_start_ext : forall b p s a, a <> [] -> ext b (obj_start p s a) (obj_start p s (a ++ b)).
+Proof.
+  intros b p s [|x r] Ha; [congruence|]. cbn [app]. unfold obj_start.
+  repeat (first [ ext_solve | bm ]).
+Qed.
+
+Lemma mid_t : forall c, u_t c <> tNext -> u_t c <> tFail -> mid c.
+Proof. intros c H1 H2; split; assumption. Qed.
+
+Lemma arr_start_post : forall p s a p1 s1 rest d,
+  up_err p = 0 -> good p -> u_t (up_cur p) = tArray ->
+  arr_start p s a = UR p1 s1 rest d unilE -> Post p1 d.
+Proof.
+  intros p s a p1 s1 rest d He Hg Ht H.
+  assert (Hc : clean p) by solve_clean Hg.
+  assert (Hm : mid (up_cur p)) by (apply mid_t; rewrite Ht; discriminate).
+  unfold arr_start in H. destruct a as [|x r]; [discriminate|].
+  repeat (bmH H); invSR H; (split; [|discriminate]);
+    (apply Inv_clean; [exact He| |exact Hc]); apply base_set_type; try apply Hg; auto; discriminate.
+Qed.
+Lemma obj_start_post : forall p s a p1 s1 rest d,
+  up_err p = 0 -> good p -> u_t (up_cur p) = tObject ->
+  obj_start p s a = UR p1 s1 rest d unilE -> Post p1 d.
+Proof.
+  intros p s a p1 s1 rest d He Hg Ht H.
+  assert (Hc : clean p) by solve_clean Hg.
+  assert (Hm : mid (up_cur p)) by (apply mid_t; rewrite Ht; discriminate).
+  unfold obj_start in H. destruct a as [|x r]; [discriminate|].
+  repeat (bmH H); invSR H; (split; [|discriminate]);
+    (apply Inv_clean; [exact He| |exact Hc]); apply base_set_type; try apply Hg; auto; discriminate.
+Qed.
+
+(* stArrayDyn *)
+Lemma arr_dyn_ext : forall b p s a, a <> [] -> ext b (arr_dyn p s a) (arr_dyn p s (a ++ b)).
+Proof.
+  intros b p s [|x r] Ha; [congruence|]. cbn [app]. unfold arr_dyn.
+  destruct (x =? mArrE).
+  - repeat (first [ ext_solve | bm ]).
+  - apply ext_nodone. apply (ustep_value_ext b _ s (x :: r)). discriminate.
+Qed.
+
+Lemma value_nodone_post : forall p s a p1 s1 rest d,
+  up_err p = 0 -> base p -> clean p ->
+  value_nodone (ustep_value p s a) = UR p1 s1 rest d unilE -> Post p1 d.
+Proof.
+  intros p s a p1 s1 rest d He Hb Hc H.
+  destruct (ustep_value p s a) as [q sq rq dq eq|c] eqn:E; [|discriminate].
+  cbn [value_nodone] in H. invSR H. split; [|discriminate].
+  eapply ustep_value_post; eauto.
+Qed.
+
+Lemma arr_dyn_post : forall p s a p1 s1 rest d,
+  up_err p = 0 -> good p -> u_t (up_cur p) = tArrayDyn ->
+  arr_dyn p s a = UR p1 s1 rest d unilE -> Post p1 d.
+Proof.
+  intros p s a p1 s1 rest d He Hg Ht H.
+  assert (Hc : clean p) by solve_clean Hg.
+  assert (Hm : mid (up_cur p)) by (apply mid_t; rewrite Ht; discriminate).
+  assert (Hb : base p) by apply Hg.
+  unfold arr_dyn in H. destruct a as [|x r]; [discriminate|].
+  destruct (x =? mArrE).
+  - destruct (uvis s EArrEnd) as [s2 e]. destruct (unil e) eqn:Ee.
+    + destruct (upop_state p) as [q dq] eqn:Ep. invSR H. eapply upop_state_post; eauto.
+    + invSR H. discriminate.
+  - destruct (u_s (up_cur p) =? sStart).
+    + eapply value_nodone_post; [| | |exact H]; auto; try (apply base_set_step; exact Hb).
+    + eapply value_nodone_post; [| | |exact H]; auto.
+Qed.
+
+(* stArrayCount *)
+Definition cnt_body (p1 : uparser) (s1 : sink) (e0 : Z) (l : Z) (b : bytes) : ures :=
+  if negb (unil e0) then UR p1 s1 b false e0
+  else if l =? 0 then
+    let '(s2, e) := uvis s1 EArrEnd in
+    if unil e then let '(p2, d) := upop_len_state p1 in UR p2 s2 b d unilE else UR p1 s2 b true e
+  else
+    match b with
+    | [] => UCrash 16
+    | x :: r =>
+        if x =? mN then UR p1 s1 r false unilE
+        else value_nodone (ustep_value (uset_lcur p1 (up_lcur p1 - 1)) s1 b)
+    end.
+Lemma arr_counted_eq : forall p s b,
+  arr_counted p s b =
+    if u_s (up_cur p) =? sStart then of_ul (ustep_len p b (with_step (up_cur p) sWithLen)) s
+    else
+      let '(p1, s1, e0) :=
+        if u_s (up_cur p) =? sWithLen
+        then let '(s1, e) := uvis s (EArrStart (up_lcur p) BAny) in (uset_step p sCont, s1, e)
+        else (p, s, unilE) in
+      cnt_body p1 s1 e0 (up_lcur p) b.
+Proof. reflexivity. Qed.
+
+Lemma cnt_body_ext : forall b p1 s1 e0 l a, a <> [] \/ l = 0 ->
+  ext b (cnt_body p1 s1 e0 l a) (cnt_body p1 s1 e0 l (a ++ b)).
+Proof.
+  intros b p1 s1 e0 l a Ha. unfold cnt_body.
+  destruct (negb (unil e0)) eqn:E0.
+  { apply ext_err. apply unil_false. apply negb_true_iff. exact E0. }
+  destruct (l =? 0) eqn:El.
+  { repeat (first [ ext_solve | bm ]). }
+  destruct a as [|x r]; [destruct Ha; [congruence|lia]|]. cbn [app].
+  destruct (x =? mN); [ext_solve|].
+  apply ext_nodone. apply (ustep_value_ext b _ s1 (x :: r)). discriminate.
+Qed.
+
+Lemma cnt_body_post : forall p1 s1 e0 l a p2 s2 rest d,
+  up_err p1 = 0 -> base p1 -> mid (up_cur p1) -> clean p1 ->
+  cnt_body p1 s1 e0 l a = UR p2 s2 rest d unilE -> Post p2 d.
+Proof.
+  intros p1 s1 e0 l a p2 s2 rest d He Hb Hm Hc H. unfold cnt_body in H.
+  destruct (negb (unil e0)) eqn:E0.
+  { invSR H. discriminate. }
+  destruct (l =? 0).
+  { destruct (uvis s1 EArrEnd) as [s3 e]. destruct (unil e) eqn:Ee.
+    - destruct (upop_len_state p1) as [q dq] eqn:Ep. invSR H. eapply upop_len_state_post; eauto.
+    - invSR H. discriminate. }
+  destruct a as [|x r]; [discriminate|].
+  destruct (x =? mN).
+  - invSR H. split; [|discriminate]. apply Inv_clean; assumption.
+  - eapply value_nodone_post; [| | |exact H]; auto.
+Qed.
+
+Lemma cstep_arrcount : forall p, u_t (up_cur p) = tArrayCount -> cstep p = true ->
+  u_s (up_cur p) <> sStart /\ up_lcur p = 0.
+Proof.
+  intros p Ht H. unfold cstep, can_step_without_input in H. rewrite Ht in H.
+  change (tArrayCount =? tFixed) with false in H.
+  change (tArrayCount =? tArrayCount) with true in H. cbv iota in H. blia.
+Qed.
+
+Lemma arr_counted_dich : forall b p s a,
+  u_t (up_cur p) = tArrayCount -> good p -> a <> [] \/ cstep p = true -> b <> [] ->
+  Dich b (arr_counted p s a) (arr_counted p s (a ++ b)).
+Proof.
+  intros b p s a Ht Hg Ha Hb0. rewrite !arr_counted_eq.
+  destruct (u_s (up_cur p) =? sStart) eqn:E1.
+  - assert (Ha' : a <> []).
+    { destruct Ha as [Ha|Ha]; [exact Ha|]. apply cstep_arrcount in Ha; [|exact Ht]. lia. }
+    assert (Hl : lenst p = true) by (unfold lenst; blia).
+    eapply of_ul_dich; [exact Hl| |].
+    + apply ustep_len_dich; auto. apply good_len; assumption.
+    + intros q g s' A B C. rewrite xb_arrcount by congruence.
+      rewrite arr_counted_eq. rewrite A, E1. reflexivity.
+  - apply Dich_ext.
+    assert (Ha' : a <> [] \/ up_lcur p = 0).
+    { destruct Ha as [Ha|Ha]; [left; exact Ha|right]. apply cstep_arrcount in Ha; tauto. }
+    destruct (u_s (up_cur p) =? sWithLen).
+    + destruct (uvis s _) as [s1 e]. apply cnt_body_ext. exact Ha'.
+    + apply cnt_body_ext. exact Ha'.
+Qed.
+
+Lemma arr_counted_post : forall p s a p1 s1 rest d,
+  up_err p = 0 -> good p -> u_t (up_cur p) = tArrayCount ->
+  arr_counted p s a = UR p1 s1 rest d unilE -> Post p1 d.
+Proof.
+  intros p s a p1 s1 rest d He Hg Ht H. rewrite arr_counted_eq in H.
+  assert (Hm : mid (up_cur p)) by (apply mid_t; rewrite Ht; discriminate).
+  assert (Hb : base p) by apply Hg.
+  destruct (u_s (up_cur p) =? sStart) eqn:E1.
+  - apply (of_ul_post _ p s a p1 s1 rest d He Hg) with (3 := H); [unfold lenst; blia|reflexivity].
+  - assert (Hc : clean p) by solve_clean Hg.
+    destruct (u_s (up_cur p) =? sWithLen).
+    + destruct (uvis s _) as [s2 e].
+      eapply cnt_body_post; [| | | |exact H];
+        [exact He|apply base_set_step; exact Hb|exact Hm|exact Hc].
+    + eapply cnt_body_post; [| | | |exact H]; [exact He|exact Hb|exact Hm|exact Hc].
+Qed.
